@@ -618,6 +618,8 @@ class Interp:
         """single-path statement execution in the current state"""
         st = cur()
         st.where = f"{frame.fname}:{getattr(s, 'lineno', 0)}"
+        from .state import LAST_SID
+        st.stmt_mark = LAST_SID[0]
         if isinstance(s, ast.Expr):
             if isinstance(s.value, ast.Constant):
                 return  # docstring
